@@ -210,6 +210,7 @@ static hawk_chain_t* parse_action_block (hawk_t* hawk, hawk_nde_t* ptn, int bloc
 static hawk_nde_t* parse_block_dc (hawk_t* hawk, const hawk_loc_t* xloc, int istop);
 
 static hawk_nde_t* parse_statement (hawk_t* hawk, const hawk_loc_t* xloc);
+static hawk_nde_t* parse_statement_withdc (hawk_t* hawk, const hawk_loc_t* xloc);
 
 static hawk_nde_t* parse_expr_withdc (hawk_t* hawk, const hawk_loc_t* xloc);
 
@@ -2499,7 +2500,7 @@ next_arm:
 	if (get_token(hawk) <= -1) goto oops;
 
 	tloc = hawk->tok.loc;
-	then_part = parse_statement(hawk, &tloc);
+	then_part = parse_statement_withdc(hawk, &tloc);
 	if (then_part == HAWK_NULL) goto oops;
 
 	/* skip any new lines before the else block */
@@ -2545,7 +2546,7 @@ next_arm:
 		}
 
 		eloc = hawk->tok.loc;
-		else_part = parse_statement(hawk, &eloc);
+		else_part = parse_statement_withdc(hawk, &eloc);
 		if (else_part == HAWK_NULL) goto oops;
 		tail->else_part = else_part;
 	}
@@ -2586,7 +2587,7 @@ static hawk_nde_t* parse_while (hawk_t* hawk, const hawk_loc_t* xloc)
 	if (get_token(hawk) <= -1)  goto oops;
 
 	ploc = hawk->tok.loc;
-	body = parse_statement(hawk, &ploc);
+	body = parse_statement_withdc(hawk, &ploc);
 	if (HAWK_UNLIKELY(!body)) goto oops;
 
 	nde = (hawk_nde_while_t*)hawk_callocmem(hawk, HAWK_SIZEOF(*nde));
@@ -2654,7 +2655,7 @@ static hawk_nde_t* parse_for (hawk_t* hawk, const hawk_loc_t* xloc)
 			if (get_token(hawk) <= -1) goto oops;
 
 			ploc = hawk->tok.loc;
-			body = parse_statement(hawk, &ploc);
+			body = parse_statement_withdc(hawk, &ploc);
 			if (HAWK_UNLIKELY(!body)) goto oops;
 
 			nde_forin = (hawk_nde_forin_t*)hawk_callocmem(hawk, HAWK_SIZEOF(*nde_forin));
@@ -2726,7 +2727,7 @@ static hawk_nde_t* parse_for (hawk_t* hawk, const hawk_loc_t* xloc)
 	if (get_token(hawk) <= -1) goto oops;
 
 	ploc = hawk->tok.loc;
-	body = parse_statement (hawk, &ploc);
+	body = parse_statement_withdc(hawk, &ploc);
 	if (body == HAWK_NULL) goto oops;
 
 	nde_for = (hawk_nde_for_t*)hawk_callocmem(hawk, HAWK_SIZEOF(*nde_for));
@@ -2763,7 +2764,7 @@ static hawk_nde_t* parse_dowhile (hawk_t* hawk, const hawk_loc_t* xloc)
 	HAWK_ASSERT (hawk->ptok.type == TOK_DO);
 
 	ploc = hawk->tok.loc;
-	body = parse_statement(hawk, &ploc);
+	body = parse_statement_withdc(hawk, &ploc);
 	if (HAWK_UNLIKELY(!body)) goto oops;
 
 	while (MATCH(hawk,TOK_NEWLINE))
@@ -3478,6 +3479,37 @@ static hawk_nde_t* parse_statement (hawk_t* hawk, const hawk_loc_t* xloc)
 		/* restore the statement id saved previously */
 		hawk->parse.id.stmt = old_id;
 	}
+
+	return nde;
+}
+
+static hawk_nde_t* parse_statement_withdc (hawk_t* hawk, const hawk_loc_t* xloc)
+{
+	/* parse the statement that if, else, while, for or do controls.
+	 * parse_block_dc() counts a block enclosed in braces. a statement without
+	 * braces nests the same way - if (a) if (b) while (c) ... - and each level
+	 * of it costs a level of recursion in the parser and in everything that
+	 * walks the tree. count it as a block level here. */
+	hawk_nde_t* nde;
+	int counted;
+
+	/* skip new lines before a statement as parse_statement() does */
+	while (MATCH(hawk,TOK_NEWLINE))
+	{
+		if (get_token(hawk) <= -1) return HAWK_NULL;
+	}
+
+	counted = !MATCH(hawk,TOK_LBRACE);
+	if (counted && hawk->opt.depth.s.block_parse > 0 &&
+	    hawk->parse.depth.block >= hawk->opt.depth.s.block_parse)
+	{
+		hawk_seterrnum (hawk, xloc, HAWK_EBLKNST);
+		return HAWK_NULL;
+	}
+
+	if (counted) hawk->parse.depth.block++;
+	nde = parse_statement(hawk, xloc);
+	if (counted) hawk->parse.depth.block--;
 
 	return nde;
 }
